@@ -4,11 +4,11 @@ Contracts are keyed by the qualified name of the real function in /repo (module.
 loop ordinal inside it.  All expressions are Python source strings evaluated by the symbolic
 evaluator in specification mode (spec.py)."""
 import ast
-from .ty import (TInt, TBool, TBytes, TStr, TNone, TAny, TOpt, TList, TTuple, TDict, TSet, TRec, TRef,
+from .ty import (TObj, TInt, TBool, TBytes, TStr, TNone, TAny, TOpt, TList, TTuple, TDict, TSet, TRec, TRef,
                  RecDecl, UnionDecl, RECS, UNIONS)
 
 Int, Bool, Bytes, Str, NoneT, Any = TInt, TBool, TBytes, TStr, TNone, TAny
-Opt, List, Tuple, Dict, Set, Rec, Ref = TOpt, TList, lambda *a: TTuple(a), TDict, TSet, TRec, TRef
+Opt, List, Tuple, Dict, Set, Rec, Ref, Obj = TOpt, TList, lambda *a: TTuple(a), TDict, TSet, TRec, TRef, TObj
 
 CONTRACTS = {}
 SPECS = {}
@@ -49,7 +49,10 @@ def _clauses(spec, prefix, default_props):
 
 
 class LoopSpec:
-    def __init__(self, invariant=None, variant=None, ghost=None, index=None, locals=None, props=None):
+    def __init__(self, invariant=None, variant=None, ghost=None, index=None, locals=None, props=None, bound=None,
+                 reveal=None):
+        self.bound = bound
+        self.reveal = reveal or []
         self.invariant_src = invariant
         self.variant_src = variant
         self.ghost = ghost or {}
